@@ -227,3 +227,9 @@ _extend("C17", [("c06", "r5_pickle", (), _has("Aligner", "Comparer"), "the error
 _extend("C18", [("c07", "r3_windows", (), ALL, "an error rate given in a specification is honoured for short partial occurrences too"),
                 ("c09", "r4_linked", (), ALL, "a required part that is missing leaves the read untouched")])
 _extend("C03", [("c09", "r2_rounds", (), ALL, "every match that removed something is in the list the mask/lowercase/retain/crop helpers work on")])
+
+# seventh round
+_extend("C10", [("c18", "r1_options", (), _has("option -"), "an upper-case adapter/cut option stores into the R2 destination: it acts on R2 only")])
+_extend("C17", [("c01", "r8_tables", (), ALL, "the errors column counts mismatches by the documented alphabet (an IUPAC code matches exactly its bases)"),
+                ("c01", "r1_search_object_arguments", (), ALL, "the matches and errors columns are computed with the wildcard settings the user gave for the read and the adapter")])
+_extend("C18", [("c08", "r3_bestof", (), ALL, "an anchored adapter given with parameters is still found when it is looked up through the index (shorter affixes are tried after longer ones)")])
